@@ -1,10 +1,151 @@
 import MazeVerif.DriverOps.Util
+import MazeVerif.Model.TokPrompt
+import MazeVerif.Model.TokVocab
 namespace MZ.Drv.C06
-open Lean MZ.Drv
+open Lean MZ.Drv MZ.Tok
 
-/-- driver ops of property C06 (`"op": "C06.<name>"`) -/
-def handle (op : String) (_j : Json) : R Json := do
+def asC (j : Json) : R C := do
+  match ← asNatList j with
+  | [r, c] => pure (r, c)
+  | _ => throw "coord: expected [r,c]"
+
+def getCt (j : Json) : R CoordTok := do
+  if (optFld j "ut").isSome then pure .ut
+  else pure (.ctt (← getBool j "pre") (← getBool j "intra") (← getBool j "post"))
+
+def getAdj (j : Json) : R AdjCfg := do
+  let ord ← match ← getNat j "ordinal" with
+    | 0 => pure Ordinal.o0 | 1 => pure Ordinal.o1 | 2 => pure Ordinal.o2 | _ => throw "ordinal"
+  let sub ← match ← getStr j "subset" with
+    | "all" => pure Subset.all | "conn" => pure (Subset.conn false) | "walls" => pure (Subset.conn true) | s => throw s!"subset {s}"
+  let pm ← match ← getStr j "permuter" with
+    | "sorted" => pure Permuter.sorted | "random" => pure Permuter.random | "both" => pure Permuter.both | s => throw s!"permuter {s}"
+  pure { cardinal := ← getBool j "cardinal", post := ← getBool j "post", shuffle := ← getBool j "shuffle",
+         ordinal := ord, subset := sub, permuter := pm }
+
+def getPath (j : Json) : R PathCfg := do
+  let steps ← (← getArr j "steps").mapM fun s => do
+    match ← s.getStr? with
+    | "coord" => pure StepTk.coord | "cardinal" => pure StepTk.cardinal | "relative" => pure StepTk.relative
+    | "distance" => pure StepTk.distance | x => throw s!"step tokenizer {x}"
+  pure { forks := ← getBool j "forks", steps := steps, pre := ← getBool j "pre", intra := ← getBool j "intra", post := ← getBool j "post" }
+
+def getPrompt (j : Json) : R Prompt := do
+  if ← getBool j "aotp" then pure (.aotp (← getBool j "target_post")) else pure .aop
+
+def getMaze (j : Json) : R Maze := do
+  pure { rows := ← getNat j "rows", cols := ← getNat j "cols", edges := ← getEdges j "edges" }
+
+def getMazeIn (j : Json) : R MazeIn := do
+  let m ← getMaze j
+  match ← getStr j "kind" with
+  | "plain" => pure (.plain m)
+  | "targeted" => pure (.targeted m (← asC (← fld j "start")) (← asC (← fld j "end")))
+  | "solved" => pure (.solved m (← asC (← fld j "start")) (← asC (← fld j "end")) (← (← getArr j "sol").mapM asC))
+  | k => throw s!"kind {k}"
+
+def jC (c : C) : Json := Json.arr #[jNat c.1, jNat c.2]
+def jOptC : Option C → Json | some c => jC c | none => Json.null
+def dirName : Dir → String | .north => "north" | .south => "south" | .east => "east" | .west => "west"
+def relName : Rel → String | .forward => "forward" | .backward => "backward" | .left => "left" | .right => "right" | .stay => "stay"
+def jVal : StepVal → Json
+  | .coord c => Json.arr #["coord", jNat c.1, jNat c.2]
+  | .card d => Json.arr #["card", Json.str (dirName d)]
+  | .rel r => Json.arr #["rel", Json.str (relName r)]
+  | .dist k => Json.arr #["dist", jNat k]
+def jEdgeInfo (e : EdgeInfo) : Json := Json.arr #[jNat e.lead.1, jNat e.lead.2, jNat e.trail.1, jNat e.trail.2, Json.bool e.isConn]
+def jPathInfo (p : PathInfo) : Json := obj [("start", jOptC p.start), ("steps", jList (jList jVal) p.steps)]
+def jInfo (i : Info) : Json :=
+  obj [("edges", jList jEdgeInfo i.edges), ("origin", jOptC i.origin),
+       ("target", match i.target with | some l => jList jC l | none => Json.null),
+       ("path", match i.path with | some p => jPathInfo p | none => Json.null)]
+def jOpt {α} (f : α → Json) : Option α → Json | some a => f a | none => Json.null
+def jToks (l : List Tok) : Json := jStrs (l.map Tok.str)
+
+/-- implementation token strings → structured tokens (`none` when some string is not a modular-tokenizer token) -/
+def readToks (j : Json) (k : String) : R (Option (List Tok)) := do
+  match optFld j k with
+  | none => pure none
+  | some a =>
+    let ss ← (← a.getArr?).toList.mapM (·.getStr?)
+    pure (ss.mapM Tok.ofStr)
+
+def bad (ss : List String) : List String := ss.filter fun s => (Tok.ofStr s).isNone
+
+/-- ops
+  * `C06.vocab` → expanded vocabulary and the Distance field table
+  * `C06.adj`   {ct, adj, maze, tokens|null} → decode the region, check ValidOrder of the observed order, re-encode
+  * `C06.path`  {ct, path, maze, sol, tokens|null} → model tokens, decoded region, spec record
+  * `C06.full`  {ct, adj, prompt, path, maze(kind…), tokens|null} → decode the sequence, ValidOrder, re-encode, spec record -/
+def handleCore (op : String) (j : Json) : R Json := do
   match op with
+  | "C06.vocab" =>
+    let n ← getNat j "upto"
+    pure <| obj [("vocab", jStrs Gen.vocab), ("distLo", jNat Gen.distLo), ("distHi", jNat Gen.distHi),
+                 ("dist", jStrs ((List.range n).map Gen.distFmt)),
+                 ("fixed", jStrs (fixedToks.map Tok.str)),
+                 ("reread", Json.bool (fixedToks.all fun t => Tok.ofStr t.str == some t))]
+  | "C06.adj" =>
+    let ct ← getCt (← fld j "ct"); let cfg ← getAdj (← fld j "adj"); let m ← getMaze (← fld j "maze")
+    let sel := selEdges cfg.subset m
+    match ← readToks j "tokens" with
+    | none =>
+      -- the implementation raised (or sent no tokens): evaluate the model on the canonical order
+      let order := match sel with | some es => permuteDet cfg.permuter es | none => []
+      pure <| obj [("sel_ok", Json.bool sel.isSome), ("model", jOpt jToks (match sel with | some _ => adjToks cfg ct m order | none => none))]
+    | some toks =>
+      match parseMany .adjEnd (parseEdge cfg ct) (toks.length + 2) (toks ++ [Tok.adjEnd]) with
+      | some (es, [Tok.adjEnd]) =>
+        let order : List OE := es.map fun e => (e.lead, e.trail)
+        let valid := match sel with | some s => validOrderB cfg.permuter cfg.shuffle s order | none => false
+        pure <| obj [("sel_ok", Json.bool sel.isSome), ("decoded", jList jEdgeInfo es), ("valid_order", Json.bool valid),
+                     ("spec", jList jEdgeInfo (edgeInfos m order)),
+                     ("model", jOpt jToks (match sel with | some _ => adjToks cfg ct m order | none => none)),
+                     ("n_sel", jNat (match sel with | some s => s.length | none => 0))]
+      | _ => pure <| obj [("sel_ok", Json.bool sel.isSome), ("decoded", Json.null)]
+  | "C06.path" =>
+    let ct ← getCt (← fld j "ct"); let pc ← getPath (← fld j "path"); let m ← getMaze (← fld j "maze")
+    let sol ← (← getArr j "sol").mapM asC
+    let model := pathToks pc ct m sol
+    let spec := pathInfo pc m sol
+    let dec ← match ← readToks j "tokens" with
+      | none => pure Json.null
+      | some toks =>
+        match parsePath pc ct .pathEnd (toks ++ [Tok.pathEnd]) with
+        | some (p, [Tok.pathEnd]) => pure (jPathInfo p)
+        | _ => pure Json.null
+    pure <| obj [("model", jOpt jToks model), ("spec", jOpt jPathInfo spec), ("decoded", dec), ("valid_cfg", Json.bool (decide pc.Valid)),
+                 ("idxs", jNats (stepIdxs pc.forks m sol))]
+  | "C06.full" =>
+    let cfg : TokCfg := { ct := ← getCt (← fld j "ct"), adj := ← getAdj (← fld j "adj"), prompt := ← getPrompt (← fld j "prompt"),
+                          path := ← getPath (← fld j "path") }
+    let mz ← getMazeIn (← fld j "maze")
+    let sel := selEdges cfg.adj.subset mz.maze
+    match ← readToks j "tokens" with
+    | none =>
+      let order := match sel with | some es => permuteDet cfg.adj.permuter es | none => []
+      pure <| obj [("sel_ok", Json.bool sel.isSome),
+                   ("model", jOpt jToks (match sel with | some _ => toTokens cfg mz order | none => none))]
+    | some toks =>
+      match decode cfg toks with
+      | none => pure <| obj [("sel_ok", Json.bool sel.isSome), ("decoded", Json.null)]
+      | some inf =>
+        let order : List OE := inf.edges.map fun e => (e.lead, e.trail)
+        let valid := match sel with | some s => validOrderB cfg.adj.permuter cfg.adj.shuffle s order | none => false
+        let spec := info cfg mz order
+        pure <| obj [("sel_ok", Json.bool sel.isSome), ("decoded", jInfo inf), ("valid_order", Json.bool valid),
+                     ("spec", jOpt jInfo spec), ("decoded_eq_spec", Json.bool (spec == some inf)),
+                     ("model", jOpt jToks (match sel with | some _ => toTokens cfg mz order | none => none))]
   | _ => throw s!"unknown op {op}"
+
+def handle (op : String) (j : Json) : R Json := do
+  -- a token string that is not a token of the modular tokenizer at all is reported as such
+  match optFld j "tokens" with
+  | some a =>
+    let ss ← (← a.getArr?).toList.mapM (·.getStr?)
+    match bad ss with
+    | [] => handleCore op j
+    | b => pure <| obj [("unreadable", jStrs b)]
+  | none => handleCore op j
 
 end MZ.Drv.C06
